@@ -176,6 +176,9 @@ def enabled_ops(world, hist, mode='full'):
                 ops.append(('new', s, ci, 'max'))
             if cfg[4] == 'default' and ci in (0, 4):
                 ops.append(('new', s, ci, 'min'))
+            if ci == 0:
+                ops.append(('new', s, ci, 'max+opts'))
+                ops.append(('new', s, ci, 'min+opts'))
         for ci in range(len(POOL), len(POOL) + len(MPOOL)):
             ops.append(('new', s, ci, 'own'))
     for s in SLOTS:
@@ -312,7 +315,11 @@ def work_level(chunk, refs=None, mode='full'):
             obs = apply_op(w, op, ms)
             h2 = hist + [op]
             acc.count('transitions')
-            if op[0] in ('call', 'callbuf'):
+            if op[0] in ('call', 'callbuf') and str(w.gen[op[1]]).endswith('+opts'):
+                # an object built with step options next to a shared generator object: what the options mean for ITS
+                # results is not C09's subject (its construction is in the history for what it does to the others)
+                acc.count('calls on objects built with generator + options (not judged)')
+            elif op[0] in ('call', 'callbuf'):
                 cfg = effective(w, op[1])
                 want = refs[ref_key(cfg, op[2])]
                 same = obs == want
